@@ -35,7 +35,6 @@ TRUSTED = ['NumPy slicing/broadcasting in Plane.multiply and util.boundary (mode
 UNPROVEN = [
             'the end-to-end theorems take a fresh wavefront and planes with array masks, and a shift common to all fields (shared Tilt planes, Wavefront(tilt=): common_tilts_plane/common_tilts_tilt); '
             'per-segment fitted tilts (different shifts per field: the chain-overlap class), interleaving of Tilt planes inside the SplitPlane chain, and propagate_fft are covered by correspondence (c03.chain over builderB Model/Propagate.lean, Model/Tilt.lean) and oracle only',
-            'that Wavefront.intensity returns (wfIntensity /= none) under the hypotheses is not proved: the intensity clause is conditional on it',
             'partitions containing a segment (or producing an intermediate field) with exactly one element (known finding KF-C03-one-pixel-segment)']
 ASSUMPTIONS = ['every segment bounding box and every intersection of boxes along the chain has more than one element (ExtOK: a condition on the bounding slices and shapes of the input, used by segmented_eq_monolithic_end_to_end)',
                'segment masks of one plane have pairwise disjoint supports']
@@ -81,8 +80,7 @@ def gen_case(rng, mode, prop):
             wl = float(np.round(dx[0] * du[0] / (alpha * fl * os_), 4))
             oshape = [int(rng.integers(2, 6)), int(rng.integers(2, 6))]
             pshape = None
-            if rng.integers(0, 3) == 0: pshape = [int(rng.integers(1, oshape[0] + 1)), int(rng.integers(1, oshape[1] + 1))]
-            if (pshape or oshape)[0] * (pshape or oshape)[1] * os_ * os_ == 1: continue
+            if rng.integers(0, 3) == 0: pshape = [1, 1] if rng.integers(0, 4) == 0 else [int(rng.integers(1, oshape[0] + 1)), int(rng.integers(1, oshape[1] + 1))]
             c['wavelength'] = wl
             c['prop'] = {'du': du, 'os': os_, 'shape': oshape, 'prop_shape': pshape, 'dx': dx, 'z': fl}
         return c
